@@ -58,7 +58,7 @@ PROP = {{
     'checker_vo': 'ca/CaCheck.vo',
     'scenario': 'cacore',
     'evals': {evals!r},
-    'extra': {{'quick': {{'histories': 8, 'ops': 60, 'evals': {ev!r}}}, 'thorough': {{'histories': 96, 'ops': 150, 'evals': {ev!r}}}}},
+    'extra': {{'quick': {{'histories': 8, 'ops': 60, 'evals': {ev!r}{xtra}}}, 'thorough': {{'histories': 96, 'ops': 150, 'evals': {ev!r}{xtra}}}}},
     'replay_header': "From KV Require Import base.Tac ca.Ca ca.CaCheck.\\nOpen Scope N_scope.",
     'replay_footer': {footer!r},
     'stats_keys': ['histories', 'ops_per_history', 'command_distribution', 'keystate_distribution'],
@@ -77,6 +77,6 @@ META = {{
 for pid, sp in SPECS.items():
     footer = "\n".join("Eval vm_compute in (failing %s base_index cases)." % e for e in sp["evals"])
     txt = TEMPLATE.format(pid=pid, evals=sp["evals"], ev=",".join(sp["evals"]), footer=footer, assump=COMMON_ASSUMP,
-                          text=sp["text"], note=sp["note"], technique=sp["technique"])
+                          text=sp["text"], note=sp["note"], technique=sp["technique"], xtra=(", 'slash': 1" if pid == "C14" else ""))
     open(os.path.join(HERE, "props.d", pid + ".py"), "w").write(txt)
 print("written", sorted(SPECS))
